@@ -58,8 +58,11 @@ def fresh_surface(rng, sid, used, dck=None):
     if dck is not None and r < 0.12:
         # torus centred at the origin, tilted about x: TORUSZ + TRANSFORM
         prm = [0.0, 0.0, 0.0, rng.choice([2.0, 2.5]), 0.5, rng.choice([0.5, 0.75])]
-        ang = rng.choice([30, 45, 60, 120])
+        ang = rng.choice([0, 30, 45, 60, 120])
         sig = ('tz', tuple(prm), ang)
+        if sig not in used and ang == 0:
+            used.add(sig)
+            return {'id': sid, 'mn': 'tz', 'params': prm, 'tr': None, 'bc': ''}
         if sig not in used:
             used.add(sig)
             n = rng.randint(61, 90)
@@ -253,7 +256,7 @@ def gen_deck(rng):
                 cell['expr'] = ('*', cell['expr'],
                                 (':', deckmod.S(a), deckmod.S(b)))
     if rng.random() < 0.1:
-        # a user plane equal to a union helper plane (known finding class)
+        # a user plane equal to a union helper plane (merged with it)
         info['helper_twin'] = True
         dck['surfaces'].append({'id': next_sid[0], 'mn': 'px',
                                 'params': [rng.choice([1.0, -1.0])],
@@ -483,35 +486,3 @@ def run_deck(text, lattice_args, vectors, seed, n_points, n_sigma):
         if len(res['diffs']) >= 3:
             break
     return res
-
-
-# ---------------------------------------------------------------------------
-# diagnosis of the known finding class
-# ---------------------------------------------------------------------------
-
-def helper_merge_diagnosis(text, args):
-    '''Re-run a conversion that ended in KeyError with a spy on
-    remove_duplicate_surfaces.  True iff the missing surface is a union helper
-    plane that de-duplication merged into another surface.'''
-    from t4_geom_convert.Kernel.FileHandlers.Writer import WriteT4Geometry as W
-    seen = {}
-    real = W.remove_duplicate_surfaces
-
-    def spy(surfs):
-        out = real(surfs)
-        seen['helpers'] = [k for k, s in surfs.items()
-                           if list(s.idorigin) == ['aux plane for unions']]
-        seen['ren'] = dict(out[1])
-        return out
-    W.remove_duplicate_surfaces = spy
-    try:
-        conv = impl.convert(text, args, keep_stdout=False)
-    finally:
-        W.remove_duplicate_surfaces = real
-    if conv.ok or conv.exc != 'KeyError' or 'ren' not in seen:
-        return False
-    m = re.fullmatch(r'-?\d+', conv.msg.strip())
-    if not m:
-        return False
-    key = int(conv.msg)
-    return key in seen['helpers'] and seen['ren'].get(key) != key
